@@ -207,6 +207,30 @@ theorem invB_sound (s : St) (h : invB s = true) : Inv s := by
     have := List.all_eq_true.mp (List.all_eq_true.mp h4 p hp) e he
     rw [ht] at this; exact tgtOk_mem s t this
 
+/-! ### slide part numbering (`rename_slide_parts`, `_next_slide_partname`) -/
+
+theorem numbersAfter_eq (n k j : Nat) : numbersAfter n k j = List.range' 1 (n + k + j) := by
+  induction j with
+  | zero => rfl
+  | succ j ih =>
+    simp only [numbersAfter, ih, nextSlideNumber]
+    rw [show n + k + (j + 1) = (n + k + j) + 1 by omega, List.range'_concat]
+    simp; omega
+
+/-- **No two slide parts ever share a name**: after the renaming and any number of added slides the numbers in use are
+    pairwise distinct, and the number the next new slide gets is not in use — also when the package holds slide parts
+    that are not in the slide-id list -/
+theorem slide_numbers_nodup (n k j : Nat) :
+    (numbersAfter n k j).Nodup ∧ nextSlideNumber n k j ∉ numbersAfter n k j := by
+  rw [numbersAfter_eq]
+  refine ⟨List.nodup_range', ?_⟩
+  simp only [List.mem_range'_1, nextSlideNumber]
+  omega
+
+/-- before the `fix:` the unlisted parts kept their old numbers and the next slide got `n + j + 1`: with one unlisted
+    part numbered 3 in a deck of two listed slides the new slide collides with it -/
+example : (2 + 0 + 1 : Nat) ∈ [1, 2, 3] := by decide
+
 /-- non-vacuity and the classic way to break closure: a relationship dropped while its id is still
     referenced is NOT a well-formed step -/
 def demo : St :=
